@@ -62,7 +62,8 @@ Errors(cfg) ==
         unknownDefault == \E c \in cats : cfg.def[c] # "unset" /\ cfg.schemes # <<>> /\ cfg.def[c] \notin Names(cfg)
         unknownDep == \E c \in cats : cfg.depK[c] = "list" /\ cfg.schemes # <<>> /\ ~(cfg.depL[c] \subseteq Names(cfg))
         noLive == \E c \in cats : cfg.schemes # <<>> /\ DefaultScheme(cfg, c) = "unset"
-        defDep == \E c \in cats : DefaultScheme(cfg, c) # "unset" /\ DefaultScheme(cfg, c) \in ExplicitDep(cfg, c)
+        \* (a context without schemes is only a container of options: nothing is cross-checked yet)
+        defDep == cfg.schemes # <<>> /\ \E c \in cats : DefaultScheme(cfg, c) # "unset" /\ DefaultScheme(cfg, c) \in ExplicitDep(cfg, c)
         optsOnUnknown == \E c \in cats, s \in AllNames : s \notin Names(cfg) /\ cfg.opts[<<c, s>>] # NoKw
         recErr == {Record(cfg, s, c)[1] : s \in Names(cfg), c \in cats} \ {"ok"}
     IN (IF dup \/ unknownDefault \/ unknownDep THEN {"KeyError"} ELSE {})
